@@ -106,6 +106,8 @@ def iso_equal(got: str, want: datetime.datetime, same_offset: bool) -> bool:
         d = datetime.datetime.fromisoformat(got)
     except Exception:  # noqa
         return False
+    if want.tzinfo is None:            # "-0000" / no zone: no zone information must come back as a naive date
+        return d.tzinfo is None and d == want
     if d.tzinfo is None:
         return False
     return d == want and (not same_offset or d.utcoffset() == want.utcoffset())
@@ -157,7 +159,10 @@ def check_message(ctx, fmt, spec, raw, m, same_offset, atts=True, quoted=False):
         if c["date"] != "":
             ctx.finding(f"{fmt}:date:absent", f"{fmt}: date {c['date']!r} for a message without Date header", rep("date", c["date"], ""))
     elif not iso_equal(c["date"], spec["date"], same_offset):
-        ctx.finding(f"{fmt}:date:{tag}", f"{fmt}: date {c['date']!r} instead of {spec['date'].isoformat()!r}",
+        nozone_utc = spec["date"].tzinfo is None and c["date"] == spec["date"].isoformat() + "+00:00"
+        ctx.finding(f"{fmt}:date:no-zone-reported-as-utc" if nozone_utc else f"{fmt}:date:{tag}:{spec.get('date_style')}",
+                    f"{fmt}: date {c['date']!r} instead of {spec['date'].isoformat()!r}"
+                    + (" (the Date header carries no zone information, '-0000')" if nozone_utc else ""),
                     rep("date", c["date"], spec["date"].isoformat()))
     if c["msgid"] != spec["msgid"]:
         ctx.finding(f"{fmt}:msgid:{tag}", f"{fmt}: message id {c['msgid']!r} instead of {spec['msgid']!r}", rep("msgid", c["msgid"], spec["msgid"]))
@@ -407,7 +412,7 @@ def run(ctx):
         "C16_unfold_inverts_folding", "C16_decode_fallback", "C16_address_list",
         "C16_full_text_plain_else_html", "C16_attachment_routing", "C16_attachment_same_as_alone", "C16_attachments_independent",
         "C16_attachment_contribution_context_free", "C16_msg_recipient_angle", "C16_msg_recipients_split", "C16_msg_quoted_comma_refuted",
-        "C16_msg_body_mapping", "C16_eml_attachments_count"])
+        "C16_msg_body_mapping", "C16_eml_attachments_count", "C16_mbox_date_field"])
     ctx.prove("C16/Inst.v", ["Gen/C16Tables.vo", "C16/Corr.vo"], expected=[
         "C16_tables_wf", "C16_mime_fallback_ok", "C16_fallback_paths_lower_case", "C16_from_pattern_is_modelled",
         "C16_fold_pattern_is_modelled", "C16_literals"])
@@ -683,6 +688,50 @@ def run(ctx):
             ctx.finding("msg:basic-fixture", "basic_email.msg: subject/sender/date missing", {"got": canon_mail(b1)})
     except Exception as e:  # noqa
         ctx.finding("msg:fixtures-fail", f".msg fixtures fail: {e!r}", {"error": repr(e)})
+
+    # ---- D2b: the Date header in all its forms (mbox path): parsedate_to_datetime is the oracle, "" when it refuses
+    from email.utils import parsedate_to_datetime
+    dvals = ["", "garbage", "Mon, 32 Jan 2024 12:00:00 +0000", "Mon, 01 Jan 2024 25:00:00 +0000", "Mon, 01 Jan 2024 12:00:00 +9999",
+             "Mon, 01 Jan 99999 12:00:00 +0000", "Mon, 01 Jan 2024 12:00:00", "1 Jan 2024 12:00:00 Z", "Mon, 01 Jan 2024 12:00:00 -2359",
+             "Mon, 01 Jan 2024 12:00:60 +0000", "Mon, 01 Jan 2024 12:00:00 +0000 (UTC)", "=?utf-8?q?Mon=2C_01_Jan_2024_12=3A00=3A00_+0100?="]
+    for _ in range(ctx.n(120, 1200)):
+        dsp = {"date": datetime.datetime(rng.randrange(1990, 2049), rng.randrange(1, 13), rng.randrange(1, 29), rng.randrange(24), rng.randrange(60),
+                                         rng.choice([0, 0, rng.randrange(60)]),
+                                         tzinfo=datetime.timezone(datetime.timedelta(minutes=rng.choice(G.ZONES + [-480, -360, -420, -240, 0, 0]))))}
+        sv = G.style_date(dsp, rng.choice(["nozone", "nozone", "named", "noweekday", "comment", "year2", "noseconds"]))
+        dvals.append(sv if sv is not None else email.utils.format_datetime(dsp["date"]))
+    dcases, dinfo = [], []
+    for v in dvals:
+        dm = email.message_from_bytes(("Date: %s\nFrom: a@b.c\nSubject: s\n\nbody\n" % v).encode("ascii"))
+        try:
+            want_iso = parsedate_to_datetime(MB.decode_header_value(dm.get("Date"))).isoformat()
+        except (TypeError, ValueError):
+            want_iso = None
+        try:
+            got_iso = MB.parse_email_message(dm).metadata.date
+        except Exception as ex:  # noqa
+            ctx.finding("mbox:date:raises", f"mbox: Date header {v!r} makes parse_email_message raise {ex!r}", {"date_header": v})
+            continue
+        ctx.case(("date", v), True, kind="date:" + ("none" if want_iso is None else "naive" if "+" not in want_iso[10:] and "-" not in want_iso[10:] else "aware"))
+        dcases.append(pair(coq_opt(want_iso, coq_str), coq_str(got_iso)))
+        dinfo.append(v)
+        if got_iso != (want_iso or ""):
+            ctx.finding("mbox:date:header-form", f"mbox: Date header {v!r} is reported as {got_iso!r}, the date it denotes is {(want_iso or '')!r}"
+                        + (" (no zone information must not become UTC)" if want_iso and got_iso == want_iso + "+00:00" else ""),
+                        {"date_header": v, "got": got_iso, "want": want_iso or "", "message": dm.as_bytes()})
+    corr("date", "date_case", dcases, dinfo, "option str * str", shard=800)
+
+    # ---- D2c: the address dataclass keeps what it is given (display names are decoded by the parsers, nothing else may
+    #      touch them: quotation marks, apostrophes, white space at the ends are part of the value)
+    ends = ["'", "\"", " ", "(", ")", ".", "\\", "\t", "’", "«"]
+    for _ in range(ctx.n(150, 1500)):
+        nm = rng.choice(ends + ["", ""]) + rng.choice(G.NAMES) + rng.choice(ends + ["", ""])
+        ad = rng.choice(["", " ", "a@b.c", " a@b.c ", "'a@b.c'", "\"x\"@y.z"])
+        ea = EmailAddress(name=nm, address=ad)
+        ctx.case(("emailaddress", nm, ad), bool(nm), kind="emailaddress")
+        if (ea.name, ea.address) != (nm, ad):
+            ctx.finding("emailaddress-not-verbatim", f"EmailAddress(name={nm!r}, address={ad!r}) holds ({ea.name!r}, {ea.address!r}): every "
+                        f"extractor's display names / addresses are altered", {"name": nm, "address": ad, "got": [ea.name, ea.address]})
 
     # ---- D3: EmailContent construction / units / full text
     texts = ["", " ", "\n", "x", " x ", " x ", "a\nb", "\t\n", "<p>h</p>", " <p>h</p>\n", "\x1c", "x\x1f", "​", "﻿x"]
